@@ -340,13 +340,14 @@ PROPS = {
                 "Distinct = distinct (kind, scenario, outcome) / parsed versions. Hostile linker data also with program-header counts beyond what an ELF header can announce (65535 … 74000) over a 4 MiB readable region.",
         "expected_tags": ["sover", "sover.some", "sover.nonascii", "dso.cyclic", "dso.mulphnum", "dso.dyn-short", "dso.linkmap-short", "dso.vaddr-underflow", "files.devshm-nonelf",
                           "files.sysv-name", "files.sover-name", "dump", "crash.ip.top", "crash.sp.top"],
-        "extra_theorems": ["C12_total", "C06_total", "C06_walk_total", "C18_walk_cycle_diverges"],
+        "extra_theorems": ["C12_total", "C06_total", "C06_walk_total", "C18_walk_cycle_diverges", "System_settled", "gatherStack_settled", "gatherThread_settled", "gatherApp_settled"],
         "trusted_base": ["dependency code (procfs-core, goblin, nix, serde_json) is exercised, not modelled: panics inside it found by the live / fuzz runs are reported with a replay",
                          "the dev profile (overflow checks on) is what the checks run; in a release build the same inputs wrap silently"],
         "assumptions": ["'bounded time' is a step bound of the modelled loops plus a wall-clock watchdog on the live runs; the scan of a dynamic section without DT_NULL is bounded only by readable memory"],
         "explanation": "C02 theorems: the repaired link_map walk terminates on every memory (fuel > number of mapped records), evaluated self-loop; no file under /dev is ever opened for a "
                        "mapping; version parser instances incl. the formerly panicking input; imported totality theorems of the sanitiser, stack lookup and guard walk; the unrepaired walk "
-                       "provably diverges on a cyclic list.",
+                       "provably diverges on a cyclic list. System_settled (Theorems/SystemTotal.lean): the request as one function (Model/System.lean) ends with the content of a dump or an error return for every target state that satisfies the aggregation invariants — stack and instruction pointers anywhere in the 64-bit range, any memory contents and protections, any reads failing or short, any configuration; never a panic, never out of fuel (composes C06_total and C12_total through gatherStack / gatherThread / gatherThreads / gatherApp).",
+        "extra_modules": ["MdwModel.Theorems.SystemTotal"],
     },
 }
 
